@@ -10,12 +10,18 @@
    the table path, every working directory, every path string and every fuel; nothing is bounded.
    `names q` = no "", "." or ".." component.  Locations are component lists, so /wh and /wh2 differ.
 
+   "Escaping" is judged on the string join_for_resolve builds, not on the string as written: a TRUE ABSOLUTE path such as
+   /etc/passwd is stripped of its leading slashes and joined under the table root BY DESIGN (it names <root>/etc/passwd, never
+   the system file), so it is accepted or refused exactly as its relative spelling is (C17_absolute_is_rerooted); only the
+   parquet read path honours a true absolute string as such, and then only when it resolves under the root (C17_arrow_inside).
+
    History: the resolver as found trusted os.path.realpath, which does not fail on a symlink loop but
    returns the rest of the path unresolved and lexically normalised; C17_legacy_resolver_refuted keeps the
    witness (loop/../ln_out/secret read a file outside the root).  The repaired resolver (canonical_path)
    is what `resolve` models. *)
 From Coq Require Import ZArith List Bool.
 Require Import DS.Model.Path DS.Gen.GenPath DS.Proofs.PathProofs DS.Proofs.KernelAgree DS.Proofs.SessionProofs DS.Proofs.HandleState.
+Require Import DS.Proofs.PathAbsolute.
 Require Import DS.Model.Str DS.Gen.GenS3 DS.Proofs.S3KeyProofs.
 Import ListNotations.
 Open Scope Z_scope.
@@ -51,6 +57,25 @@ Theorem C17_reject_outside : forall (d : nat) (t : tree) (cwd : loc) (base p : p
   is_prefix rb full = false -> resolve d t cwd base p = Err Security.
 Proof. exact resolve_reject. Qed.
 Print Assumptions C17_reject_outside.
+
+(* A true absolute string p (it starts with "/") is RE-ROOTED, for every tree, base spelling, working directory and fuel: its
+   leading slashes are stripped and the rest -- which is not absolute -- is joined under the base, literally `base ++ lstrip p` for
+   a canonical base; the resolver answers for p exactly what it answers for the relative spelling lstrip p; when it answers, the
+   answer is the realpath of that JOINED string, link-free and under the canonical root; and when the JOINED string resolves
+   outside the root the outcome is the Security error.  Where p itself would lead in the file system never enters. *)
+Theorem C17_absolute_is_rerooted : forall (d : nat) (t : tree) (cwd : loc) (base p : pstr),
+  is_abs p = true ->
+  is_abs (lstrip p) = false
+  /\ join_for_resolve base p = os_join base (lstrip p)
+  /\ (forall b : loc, names b -> b <> [] -> base = abs_str b -> join_for_resolve base p = abs_str b ++ lstrip p)
+  /\ resolve d t cwd base p = resolve d t cwd base (lstrip p)
+  /\ (forall q : loc, resolve d t cwd base p = Ok q ->
+        exists rb, realpath d t cwd base = Ok rb /\ realpath d t cwd (os_join base (lstrip p)) = Ok q
+                /\ is_prefix rb q = true /\ no_link_prefix t q = true)
+  /\ (forall full rb : loc, realpath d t cwd (os_join base (lstrip p)) = Ok full -> realpath d t cwd base = Ok rb ->
+        is_prefix rb full = false -> resolve d t cwd base p = Err Security).
+Proof. exact absolute_is_rerooted. Qed.
+Print Assumptions C17_absolute_is_rerooted.
 
 (* The second sentence of the property, against the KERNEL rather than against realpath: whenever the
    operating system itself can walk the joined string (every component exists, no ELOOP), the modelled
@@ -329,6 +354,20 @@ Example C17_nonvacuous :
   /\ run_entry 5 ex_tree ex_cwd gen_table_dirs ex_base EpWrite [3; 2] = Err IsRoot
   /\ In (EpWrite, GFileTarget) gen_entry_guards.
 Proof. vm_compute. repeat split; try reflexivity; auto 20. Qed.
+
+(* non-vacuity of C17_absolute_is_rerooted: "/w/out/secret" is the true absolute name of an existing file OUTSIDE the root /w/tbl;
+   handed to the resolver it names /w/tbl/w/out/secret (a location inside, nothing there yet), as "w/out/secret" does; the kernel
+   walks the string itself to /w/out/secret; only the parquet read path takes it as written, and refuses it; with enough '..'
+   behind the slash the JOINED string leaves the root and is refused *)
+Example C17_absolute_nonvacuous :
+  is_abs [0; 10; 13; 14] = true
+  /\ join_for_resolve ex_base [0; 10; 13; 14] = [0; 10; 11; 10; 13; 14]
+  /\ resolve 5 ex_tree ex_cwd ex_base [0; 10; 13; 14] = Ok [10; 11; 10; 13; 14]
+  /\ resolve 5 ex_tree ex_cwd ex_base [10; 13; 14] = Ok [10; 11; 10; 13; 14]
+  /\ kwalk 20 ex_tree [] (tl [0; 10; 13; 14]) = Ok [10; 13; 14]
+  /\ arrow_path 5 ex_tree ex_cwd gen_table_dirs ex_base [0; 10; 13; 14] = Err Security
+  /\ resolve 5 ex_tree ex_cwd ex_base [0; 2; 13; 14] = Err Security.
+Proof. vm_compute. repeat split. Qed.
 
 (* non-vacuity of the object-store theorems (string literals need String, imported last: it shadows List.length) *)
 From Coq Require Import String.
